@@ -16,16 +16,10 @@ def one(args):
         pr = subprocess.run(["patch", "-p1", "-s", "-f", "-d", str(tmp), "-i", patch], capture_output=True, text=True)
         if pr.returncode:
             return sid, None
-        out = {}
-        props = sorted(p.stem.upper() for p in (VERIF / "hmslint" / "rules").glob("c[0-9][0-9].py"))
-        for pid in props:
-            try:
-                ctx, mod, obs, docs, errors, extra, wall = run_property(pid, "quick", str(tmp))
-            except Exception:
-                continue
-            rules = sorted({o.rule for o in obs if o.status == VIOLATION})
-            if rules:
-                out[pid] = rules
+        from hmslint.check import run_all
+
+        res = run_all(str(tmp))
+        out = {pid: v["violations"] for pid, v in sorted(res.items()) if v["violations"]}
         return sid, out
     finally:
         shutil.rmtree(tmp, ignore_errors=True)
